@@ -9,7 +9,10 @@
 (*   mode       server: "off" | "file" (one pair) | "file2" (two pairs) |  *)
 (*              "self" (tls self_signed a.test) | "none" (a block with no  *)
 (*              loader: `tls { protocols ... }`) | "bogus" (unknown loader)*)
-(*              | "odd" (tls file with three arguments); client: "client"  *)
+(*              | "odd" (tls file with three arguments) | "filedir" (the   *)
+(*              loader named by a `loader` directive inside the block);    *)
+(*              client: "client" | "clientcert" (cert + key configured) |  *)
+(*              "clienthalf" (only cert configured)                        *)
 (*   protocols, ciphers, curves   the arguments of the directive;          *)
 (*              <<"OMIT">> = the directive is not written; <<>> = written  *)
 (*              without arguments                                          *)
@@ -23,6 +26,7 @@
 (*   curv       the curves of CurveU a TLS 1.3 handshake pinned to that    *)
 (*              curve succeeds with                                        *)
 (*   names      the served certificate is valid for the configured names   *)
+(*   ccert      the peer was shown the configured client certificate       *)
 (* Sources: docs/reference/tls.md (loaders, `off`, protocols / ciphers /   *)
 (* curves with their valid values and defaults, tls_client).               *)
 (*                                                                         *)
@@ -66,7 +70,8 @@ CurveChoices ==
   {OMIT, <<>>, <<"X25519">>, <<"p256">>, <<"p384", "p521">>, <<"x25519">>}
   \cup (IF Depth >= 2 THEN {<<"p521">>, <<"X25519", "p256">>, <<"P256">>, <<"p256", "bogus">>} ELSE {})
 
-Serving == {"file", "file2", "self", "none"}
+Serving == {"file", "file2", "self", "none", "filedir"}
+ClientModes == {"client", "clientcert", "clienthalf"}
 Row(sc, m, p, c, k) == [scope |-> sc, mode |-> m, protocols |-> p, ciphers |-> c, curves |-> k]
 Rows ==
   (IF "server" \in Scopes
@@ -76,6 +81,8 @@ Rows ==
   \cup
   (IF "client" \in Scopes
    THEN {Row("client", "client", p, c, k) : p \in ProtoChoices, c \in CipherChoices, k \in CurveChoices}
+        \cup {Row("client", "clientcert", p, OMIT, OMIT) : p \in ProtoChoices}
+        \cup {Row("client", "clienthalf", OMIT, OMIT, OMIT)}
    ELSE {})
 
 ToSetS(s) == {s[i] : i \in 1..Len(s)}
@@ -86,7 +93,7 @@ ToSetS(s) == {s[i] : i \in 1..Len(s)}
 BadProto(p) == p # OMIT /\ (Len(p) \notin {1, 2} \/ \E i \in 1..Len(p) : ~IsVer(p[i]))
 BadCipher(c) == c # OMIT /\ (c = <<>> \/ \E i \in 1..Len(c) : c[i] \notin CipherNames)
 BadCurve(k) == k # OMIT /\ (k = <<>> \/ \E i \in 1..Len(k) : k[i] \notin CurveU)
-BlockRead(i) == i.mode \in Serving \cup {"client"}          \* the block of `tls off` / a failed loader is never read
+BlockRead(i) == i.mode \in Serving \cup ClientModes          \* the block of `tls off` / a failed loader is never read
 ConfigError(i) ==
   \/ i.mode \in {"bogus", "odd"}
   \/ BlockRead(i) /\ (BadProto(i.protocols) \/ BadCipher(i.ciphers) \/ BadCurve(i.curves))
@@ -107,22 +114,23 @@ ExpCiph(i, devs) == IF 2 \notin Allowed(i, devs) THEN {}
 ExpCurv(i, devs) == IF 3 \notin Allowed(i, devs) THEN {}
                     ELSE IF i.curves = OMIT THEN CurveU ELSE ToSetS(i.curves)
 
-ErrOut == [err |-> TRUE, starttls |-> FALSE, vers |-> {}, ciph |-> {}, curv |-> {}, names |-> TRUE]
-OffOut == [err |-> FALSE, starttls |-> FALSE, vers |-> {}, ciph |-> {}, curv |-> {}, names |-> TRUE]
-DeadOut == [err |-> FALSE, starttls |-> TRUE, vers |-> {}, ciph |-> {}, curv |-> {}, names |-> TRUE]
+ErrOut == [err |-> TRUE, starttls |-> FALSE, vers |-> {}, ciph |-> {}, curv |-> {}, names |-> TRUE, ccert |-> FALSE]
+OffOut == [err |-> FALSE, starttls |-> FALSE, vers |-> {}, ciph |-> {}, curv |-> {}, names |-> TRUE, ccert |-> FALSE]
+DeadOut == [err |-> FALSE, starttls |-> TRUE, vers |-> {}, ciph |-> {}, curv |-> {}, names |-> TRUE, ccert |-> FALSE]
 
 RuleWith(i, devs) ==
   IF ConfigError(i) THEN ErrOut
   ELSE IF i.mode = "off" THEN OffOut
   ELSE IF i.mode = "none" THEN (IF "NoLoaderAccepted" \in devs THEN DeadOut ELSE ErrOut)
   ELSE [err |-> FALSE, starttls |-> i.scope = "server", vers |-> ExpVers(i, devs),
-        ciph |-> ExpCiph(i, devs), curv |-> ExpCurv(i, devs), names |-> TRUE]
+        ciph |-> ExpCiph(i, devs), curv |-> ExpCurv(i, devs), names |-> TRUE,
+        ccert |-> i.mode = "clientcert" /\ ExpVers(i, devs) # {}]
 Rule(i) == RuleWith(i, {})
 RuleD(i) == RuleWith(i, Devs)
 
 \* where the documentation leaves the answer open (Go's defaults) two answers count as the same
 Same(i, o, r) ==
-  /\ o.err = r.err /\ o.starttls = r.starttls /\ o.vers = r.vers /\ o.names = r.names
+  /\ o.err = r.err /\ o.starttls = r.starttls /\ o.vers = r.vers /\ o.names = r.names /\ o.ccert = r.ccert
   /\ (i.ciphers # OMIT => o.ciph = r.ciph)
   /\ (i.curves # OMIT => o.curv = r.curv)
 
@@ -131,7 +139,7 @@ Same(i, o, r) ==
 (***************************************************************************)
 Viol(i, o) ==
   LET ok == ~ConfigError(i) /\ ~o.err
-      live == i.mode \in {"file", "file2", "self", "client"}
+      live == i.mode \in {"file", "file2", "self", "filedir"} \cup ClientModes
   IN (IF ConfigError(i) /\ ~o.err THEN {"UnknownNameAccepted"} ELSE {})
      \cup (IF ~ConfigError(i) /\ i.mode # "none" /\ o.err THEN {"ValidConfigRefused"} ELSE {})
      \cup (IF i.mode = "off" /\ o.starttls THEN {"OffAdvertisesStarttls"} ELSE {})
@@ -142,6 +150,8 @@ Viol(i, o) ==
      \cup (IF ok /\ live /\ i.ciphers # OMIT /\ o.ciph # ExpCiph(i, {}) THEN {"CiphersNotAsConfigured"} ELSE {})
      \cup (IF ok /\ live /\ i.curves # OMIT /\ o.curv # ExpCurv(i, {}) THEN {"CurvesNotAsConfigured"} ELSE {})
      \cup (IF ok /\ i.mode = "self" /\ o.vers # {} /\ ~o.names THEN {"SelfSignedWrongNames"} ELSE {})
+     \cup (IF ok /\ i.mode = "clientcert" /\ o.vers # {} /\ ~o.ccert THEN {"ClientCertNotPresented"} ELSE {})
+     \cup (IF ok /\ i.mode # "clientcert" /\ o.ccert THEN {"ClientCertUnasked"} ELSE {})
 
 Init == in \in Rows
 Next == FALSE /\ UNCHANGED in
